@@ -93,8 +93,10 @@ fn case(ty: u8) {
     // one arbitrary row value of the zone and statistics that satisfy the builder's contract for it
     let v = any_value(ty, true);
     vnd::assume(!negative_nan(&v));
-    let (min, max) = (any_value(ty, false), any_value(ty, false));
+    // a zone whose rows are all NULL has NULL min/max (the accumulators saw no value)
+    let (min, max) = (any_value(ty, true), any_value(ty, true));
     vnd::assume(!negative_nan(&min) && !negative_nan(&max));
+    vnd::assume(min.is_null() == max.is_null());
     let zone = ZoneMapStatistics { min, max, null_count: vnd::any(), nan_count: vnd::any(), fragment_id: 0, zone_start: 0, zone_length: 8 };
     // contract of the builder (update_stats): null_count / nan_count count the NULL / NaN rows; min and max
     // are DataFusion's Min/Max accumulators over all non-null rows, i.e. bounds in ScalarValue (total) order
@@ -104,7 +106,7 @@ fn case(ty: u8) {
         if is_nan(&v) {
             vnd::assume(zone.nan_count > 0);
         }
-        vnd::assume(zone.min <= v && v <= zone.max);
+        vnd::assume(!zone.min.is_null() && zone.min <= v && v <= zone.max);
     }
     let kind: u8 = vnd::any();
     vnd::assume(kind < 4);
@@ -136,6 +138,7 @@ fn case(ty: u8) {
     let sat = satisfies(&v, &q);
     let keep = ZoneMapIndex.evaluate_zone_against_query(&zone, &q);
     vnd::cover!(sat && kind == 3, "a row inside a range query");
+    vnd::cover!(sat && zone.min.is_null(), "a matching row in an all-NULL zone");
     vnd::cover!(!sat && matches!(keep, Ok(false)), "a zone that is pruned");
     match keep {
         Ok(k) => assert!(!sat || k),
